@@ -96,3 +96,41 @@ Proof.
   split; [exact G|]. split; [vm_compute; reflexivity|].
   exact (proj2 (hc_history true ex_hp ex_hp fx_hd okb_text fx_host_spq fx_host_wf fx_ip_disp fx_host_ok fx_ip_okv _ _ G F0 H0)).
 Qed.
+
+(* ---------- the backslash clause: parse "http://h.x\a"; set_path("x\y"); path_segments_mut().push("c\d") ---------- *)
+From RU Require Import Proofs.C05_PathSp Proofs.C05_ReachFSp.
+
+Definition bs_example_stmt : Prop :=
+  exists u, CReachF true ex_hp ex_hp fx_hd u /\ ser u = B "http://h.x/x/y/c%5Cd" /\ spb u = true
+    /\ cannot_be_a_base u = Some false /\ forall p, path u = Some p -> ~ In 92 p.
+
+Lemma bs_example : bs_example_stmt.
+Proof.
+  destruct (parse_url true ex_hp ex_hp fx_hd None None (B "http://h.x\a")) as [u0| |] eqn:E0;
+    [|vm_compute in E0; discriminate ..].
+  pose proof (CRF_parse true ex_hp ex_hp fx_hd None _ u0 E0) as R0. vm_compute in E0. injection E0 as <-.
+  match type of R0 with CReachF _ _ _ _ ?u =>
+    destruct (apply_op true ex_hp ex_hp fx_hd u (OSetPath (B "x\y"))) as [u1|] eqn:E1;
+      [|vm_compute in E1; discriminate] end.
+  pose proof E1 as E1'. vm_compute in E1'. injection E1' as <-.
+  match type of E1 with apply_op _ _ _ _ ?u ?o = Some ?u' =>
+    assert (CReachF true ex_hp ex_hp fx_hd u') as R1 end.
+  { eapply CRF_step; [exact R0 | | exact E1]. cbn [step_gate3 step_gate2 step_gate].
+    split; [repeat constructor; unfold is_usv; lia|]. split; [intros _ _; vm_compute; reflexivity|].
+    split; [intros X; vm_compute in X; discriminate | vm_compute; exact I]. }
+  clear R0 E1.
+  match type of R1 with CReachF _ _ _ _ ?u =>
+    destruct (apply_op true ex_hp ex_hp fx_hd u (OPathSegments [PPush (B "c\d")])) as [u2|] eqn:E2;
+      [|vm_compute in E2; discriminate] end.
+  pose proof E2 as E2'. vm_compute in E2'. injection E2' as <-.
+  match type of E2 with apply_op _ _ _ _ ?u ?o = Some ?u' =>
+    assert (CReachF true ex_hp ex_hp fx_hd u') as R2 end.
+  { eapply CRF_step; [exact R1 | | exact E2]. cbn [step_gate3 step_gate2].
+    split; [repeat constructor; unfold is_usv; lia | vm_compute; exact I]. }
+  eexists. split; [exact R2|]. split; [vm_compute; reflexivity|].
+  assert (spb {| ser := B "http://h.x/x/y/c%5Cd"; scheme_end := 4; username_end := 7; host_start := 7; host_end := 10;
+                 hosti := HI_Domain; port := None; path_start := 10; query_start := None; fragment_start := None |} = true) as Hs
+    by (vm_compute; reflexivity).
+  split; [vm_compute; reflexivity|].
+  exact (creachF_special_path true ex_hp ex_hp fx_hd fx_host_wf fx_host_ok fx_ip_disp fx_ip_okv _ R2 Hs).
+Qed.
